@@ -172,8 +172,12 @@ func runC06(c *Ctx, cs Case) {
 				c.Failf("session-unusable", "message %d (%d bytes, limit %d): no final reply after the data: %v", i, len(data), k.Limit, fin.Err)
 				return
 			}
+			// "size" may count line ends as CRLF (as transmitted, RFC 1870) or as LF (as
+			// stored): a message is oversized for certain only by the smaller measure,
+			// within the limit for certain only by the larger
+			lfSize := len(normLF(data))
 			switch {
-			case len(data) >= k.Limit+c06Slack:
+			case lfSize >= k.Limit+c06Slack:
 				over++
 				mustNot[m.Token] = true
 				if fin.ok2xx() {
@@ -289,12 +293,12 @@ func init() {
 		Rule: "real SMTP server with MaxMessageBytes L in {1 KiB .. 64 KiB} (thorough: up to 4 MiB) on the simulated network; one session sends " +
 			"1-4 messages whose data size sits at L/2, L-slack, L+slack, 2L, 3L or inside the band |s-L|<slack, with the SIZE parameter absent, " +
 			"truthful, understated or overstated, followed by a small message on the same connection. Oracle: declared SIZE > L => MAIL " +
-			"refused; s >= L+slack => refusal after the data and nothing stored; s <= L-slack => accepted and stored; every later transaction " +
+			"refused; s >= L+slack counting line ends as one byte => refusal after the data and nothing stored; s <= L-slack counting them as two => accepted and stored; every later transaction " +
 			"on the session still works; in a third of the runs one more message follows whose data (L/2 .. 3L bytes) is transmitted without the end-of-data line " +
 			"before the connection is closed, reset or left silent past the timeout - nothing of it may be stored; nothing larger than L+2*slack (trace headers included) is ever found in any mailbox. slack = 512 bytes covers CRLF/LF, " +
 			"terminator, dot-stuffing and header-counting ambiguity. non-trivial = at least one oversized message was transmitted",
 		Real:        []string{"pkg/server/smtp", "pkg/message", "stores", "net/textproto"},
 		Stub:        []string{"TCP (simnet)", "scheduler", "clock", "disk"},
-		Assumptions: []string{"'size' of a message is the length of its data; sizes within 512 bytes of the limit are unconstrained"},
+		Assumptions: []string{"'size' of a message is the length of its data, line ends counted as CRLF or as LF (the statement does not say); sizes for which the two measures fall on different sides of the limit, or within 512 bytes of it, are unconstrained"},
 	})
 }
